@@ -1,6 +1,6 @@
 """C07: decided on the emitted netlist by the certified checker chk_C07 (Coq, extracted);
 families of descriptions -> real floogen -> fail-closed reader -> checker.  See netprops.py."""
-from harness import netprops, spec
+from harness import netprops, spec, families
 
 ID = "C07"
 PROPS = "theories/Props/C07.v"
@@ -12,7 +12,7 @@ def nontrivial(d, t, r):
 
 
 def run(tier, seed, rep, replay=None):
-    netprops.standard_run(ID, tier, seed, rep, replay, ALGOS, nontrivial,
+    netprops.standard_run(ID, tier, seed, rep, replay, ALGOS, nontrivial, extra_cases=families.xy_suite, rule=
                           "families star/mesh/mesh_plus/tree/custom x algorithms " + str(ALGOS) + " x axi/narrow-wide, "
                           "exhaustive declaration-order permutations for small stars, seeded random otherwise; "
                           "non-trivial = at least two endpoint instances")
